@@ -47,7 +47,7 @@ _RE_SIM = re.compile(r"The number of states generated: (\d+)")
 
 
 def _java_cmd(heap_gb: int | None = None) -> list[str]:
-    cmd = ["java", "-XX:+UseParallelGC"]
+    cmd = ["java", "-XX:+UseParallelGC", "-Xss128m"]  # deep recursive operators (e.g. the Place solver run) overflow the default 1 MB thread stack
     if heap_gb:
         cmd.append(f"-Xmx{heap_gb}g")
     cmd += ["-cp", JAR, "tlc2.TLC"]
